@@ -287,8 +287,16 @@ class PointerProgram:
             k = short(cal['key']) if cal else '?'
             if k in ('std::move', 'std::forward'):
                 return self.value(fn, o['args'][0], this, env, depth)
+            if k == 'std::make_shared' and 'Node' in self.tu.tstr(o.get('t')):
+                a = o.get('args', [])
+                cnt = self.deref(self.value(fn, a[1], this, env, depth)) if len(a) > 1 else None
+                if not isinstance(cnt, int):
+                    raise Unsupported('node generation is not a counter value at %s' % fn.nloc(n))
+                nd = Node('clone%d' % (len(this.fresh) + 1), cnt)
+                this.fresh.append(nd)
+                return nd
             if k == 'std::make_shared':
-                raise Unsupported('make_shared outside doAllocateNode at %s' % fn.nloc(n))
+                raise Unsupported('make_shared of a non-node at %s' % fn.nloc(n))
             raise Unsupported('call %s at %s' % (k, fn.nloc(n)))
         raise Unsupported('expression %s at %s' % (c, fn.nloc(n)))
 
